@@ -30,7 +30,7 @@ pub struct Cfg {
 }
 impl Cfg {
     pub fn spec(self) -> SpecId {
-        [SpecId::TANGERINE, SpecId::SHANGHAI, SpecId::CANCUN][self.idx as usize]
+        [SpecId::TANGERINE, SpecId::SHANGHAI, SpecId::CANCUN, SpecId::SHANGHAI][self.idx as usize]
     }
     pub fn state_clear(self) -> bool {
         self.idx != 0
@@ -38,8 +38,15 @@ impl Cfg {
     pub fn create2(self) -> bool {
         self.idx != 0
     }
+    /// T already exists in the database (with storage and balance) before the history starts
+    pub fn predeployed(self) -> bool {
+        self.idx == 3
+    }
+    pub fn describe(self) -> String {
+        format!("{:?} state_clear={}{}", self.spec(), self.state_clear(), if self.predeployed() { " T-predeployed" } else { "" })
+    }
 }
-pub const CFGS: [Cfg; 3] = [Cfg { idx: 0 }, Cfg { idx: 1 }, Cfg { idx: 2 }];
+pub const CFGS: [Cfg; 4] = [Cfg { idx: 0 }, Cfg { idx: 1 }, Cfg { idx: 2 }, Cfg { idx: 3 }];
 
 pub const K: Address = address!("c0000000000000000000000000000000000000c1");
 pub const F: Address = address!("f0000000000000000000000000000000000000f1");
@@ -112,6 +119,9 @@ pub fn world(cfg: Cfg) -> Plain {
     w.insert(F, PlainAcc::contract(&f_code(cfg)).with_balance(U256::from(100)));
     w.insert(DUST, PlainAcc::default());
     w.insert(STOR, PlainAcc::default().with_storage(1, 1));
+    if cfg.predeployed() {
+        w.insert(t_addr(cfg), PlainAcc::contract(&t_runtime()).with_balance(U256::from(3)).with_storage(1, 3).with_storage(2, 8));
+    }
     w
 }
 pub fn addrs(cfg: Cfg) -> Vec<Address> {
@@ -132,7 +142,7 @@ pub enum Act {
     Inc(u8),
     Drain(u8),
 }
-pub const N_TX: u8 = 16;
+pub const N_TX: u8 = 17;
 fn words(ws: &[u64]) -> Bytes {
     let mut v = vec![];
     for w in ws {
@@ -158,6 +168,7 @@ pub fn tx_desc(i: u8) -> &'static str {
         "1 wei to STOR",
         "1 wei to EMPTY, paying the coinbase",
         "K[2]=0",
+        "1 wei to T",
     ][i as usize]
 }
 fn tx_case(cfg: Cfg, i: u8) -> TxCase {
@@ -184,6 +195,7 @@ fn tx_case(cfg: Cfg, i: u8) -> TxCase {
             (EMPTY, Bytes::new(), 1)
         }
         15 => (K, words(&[2, 0]), 0),
+        16 => (t, Bytes::new(), 1),
         _ => unreachable!(),
     };
     c.tx.to = Some(to);
@@ -846,6 +858,16 @@ pub fn replay_for(prop: &'static str) -> impl Fn(&Value) -> Vec<Violation> {
         }
     }
 }
+/// non-initial starting points: short histories that leave T or K in the less common statuses
+/// (destroyed-and-changed by two routes, created with two slots, a contract with a new and a zeroed slot)
+pub fn prefixes() -> Vec<Vec<Act>> {
+    vec![
+        vec![Act::Tx(12), Act::Tx(8)],
+        vec![Act::Tx(8), Act::Tx(9), Act::Tx(8)],
+        vec![Act::Tx(8), Act::Tx(10)],
+        vec![Act::Tx(6), Act::Tx(5)],
+    ]
+}
 pub fn run_family(ctx: &Ctx, prop: &'static str, depth: usize, rule: &str, explanation: &str) -> i32 {
     let hs = histories(depth);
     let mut jobs: Vec<HCase> = vec![];
@@ -853,6 +875,21 @@ pub fn run_family(ctx: &Ctx, prop: &'static str, depth: usize, rule: &str, expla
         jobs.push(HCase { cfg, hist: vec![] });
         for h in &hs {
             jobs.push(HCase { cfg, hist: h.clone() });
+        }
+    }
+    // from the non-initial starting points: every continuation two levels shallower
+    if depth >= 3 {
+        let cont = histories(depth - 2);
+        for cfg in CFGS {
+            for p in prefixes() {
+                for h in &cont {
+                    let mut full = p.clone();
+                    full.extend(h.iter().cloned());
+                    if full.len() > depth {
+                        jobs.push(HCase { cfg, hist: full });
+                    }
+                }
+            }
         }
     }
     // shortest histories first, so that a wall-clock cap leaves complete depths below it
@@ -879,13 +916,13 @@ pub fn run_family(ctx: &Ctx, prop: &'static str, depth: usize, rule: &str, expla
                         a.merge(local);
                         a.distinct(&(c.cfg, &c.hist, v.len()));
                         if a.samples.is_empty() && c.hist.len() == depth {
-                            a.sample(|| json!({"config": format!("{:?} state_clear={}", c.cfg.spec(), c.cfg.state_clear()), "history": describe(&c.hist)}));
+                            a.sample(|| json!({"config": c.cfg.describe(), "history": describe(&c.hist)}));
                         }
                         for (k, m) in v {
-                            a.violation(Violation { key: k, msg: format!("{:?} [{}]: {m}", c.cfg.spec(), describe(&c.hist)), case: json!({"hcase": c, "described": describe(&c.hist)}) });
+                            a.violation(Violation { key: k, msg: format!("{} [{}]: {m}", c.cfg.describe(), describe(&c.hist)), case: json!({"hcase": c, "described": describe(&c.hist)}) });
                         }
                     }
-                    Err(p) => a.violation(Violation { key: "panic".into(), msg: format!("{:?} [{}]: panic: {p}", c.cfg.spec(), describe(&c.hist)), case: json!({"hcase": c, "described": describe(&c.hist)}) }),
+                    Err(p) => a.violation(Violation { key: "panic".into(), msg: format!("{} [{}]: panic: {p}", c.cfg.describe(), describe(&c.hist)), case: json!({"hcase": c, "described": describe(&c.hist)}) }),
                 }
             }
             a
@@ -893,15 +930,15 @@ pub fn run_family(ctx: &Ctx, prop: &'static str, depth: usize, rule: &str, expla
         .collect();
     let mut acc = merge_all(accs);
     for d in 0..=depth {
-        acc.bump(&format!("histories_total_depth_{d}"), 3 * (alphabet().len() as u64).pow(d as u32));
+        acc.bump(&format!("histories_total_depth_{d}"), CFGS.len() as u64 * (alphabet().len() as u64).pow(d as u32));
     }
     let meta = Meta {
-        rule: format!("every history of <= {depth} actions over a 21-action menu (16 transactions: value to an absent account, touches of an existing-empty and an absent account, storage writes that change / restore / zero / add a slot, CREATE2 (CREATE before Constantinople) of a contract with and without storage, its self-destruct and a later write to it, destroy-and-recreate and create-and-destroy inside one transaction, value to a codeless account with storage, a fee-paying transfer; 3 balance increments; 2 balance drains) on 3 configurations (TANGERINE without state clear, SHANGHAI, CANCUN), executed through Evm::transact over the real State; {rule}; distinct = distinct (configuration, history)"),
+        rule: format!("every history of <= {depth} actions over a 22-action menu (17 transactions: value to an absent account, touches of an existing-empty and an absent account, storage writes that change / restore / zero / add a slot, CREATE2 (CREATE before Constantinople) of a contract with and without storage, its self-destruct and a later write to it, destroy-and-recreate and create-and-destroy inside one transaction, value to a codeless account with storage, a fee-paying transfer, value to the created contract's address; 3 balance increments; 2 balance drains) on 4 configurations (TANGERINE without state clear, SHANGHAI, CANCUN, SHANGHAI with the contract T already deployed with storage), plus, from 4 non-initial starting histories (T destroyed-and-recreated by two routes, T with two slots, a contract with a new and a zeroed slot), every continuation of <= depth-2 actions, executed through Evm::transact over the real State; {rule}; distinct = distinct (configuration, history)"),
         assumptions: vec![
             "reference = plain map committed by an independent rule (touched only; self-destructed => deleted; created => storage cleared; EIP-161 removal when state clear is active); balance increments / drains applied literally".into(),
             "changesets and reverts are applied to a plain database model with separate account / storage / contract tables, following their documented reading (wipe flag first; unlisted slots of a wiped revert read as pre-bundle values)".into(),
         ],
-        bounds: json!({"depth": depth, "actions": alphabet().len(), "configs": 3}),
+        bounds: json!({"depth": depth, "actions": alphabet().len(), "configs": 4, "prefixes": 4}),
         min_distinct: 100,
         exhaustive: true,
         explanation: explanation.into(),
